@@ -1,6 +1,9 @@
 package main
 
-import "github.com/openfga/openfga/internal/verifh/core"
+import (
+	"github.com/openfga/openfga/internal/verifh/c23seq"
+	"github.com/openfga/openfga/internal/verifh/core"
+)
 
-// runSeq is replaced when the sequential half (package c23seq) is wired in.
-func runSeq(o *core.Options, r *core.Report) {}
+// runSeq runs the sequential adapter enumeration into the shared report.
+func runSeq(o *core.Options, r *core.Report) { c23seq.RunInto(o, r) }
